@@ -578,3 +578,20 @@ pub fn known_range_swapped(info: &Info, rows: &[Row], e: &SExpr) -> bool {
 pub fn rows_coq(rows: &[(u64, u64, Row)]) -> String {
     coq::list(rows.iter().map(|(id, frag, vs)| format!("({id}, {frag}, {})", coq::list(vs.iter().map(|v| coq::opt(v.map(coq::z)))))))
 }
+
+/// BTreeMap::range panics: start > end, or start == end with both bounds excluded
+pub fn range_inverted(lo: &Bnd, hi: &Bnd) -> bool {
+    match (lo, hi) {
+        (Bnd::Incl(Lit::Val(a)), Bnd::Incl(Lit::Val(b))) | (Bnd::Incl(Lit::Val(a)), Bnd::Excl(Lit::Val(b))) | (Bnd::Excl(Lit::Val(a)), Bnd::Incl(Lit::Val(b))) => b < a,
+        (Bnd::Excl(Lit::Val(a)), Bnd::Excl(Lit::Val(b))) => b <= a,
+        _ => false,
+    }
+}
+pub fn has_bitmap_inverted(e: &SIdx, is_bitmap: &dyn Fn(u64) -> bool) -> bool {
+    match e {
+        SIdx::Not(x) => has_bitmap_inverted(x, is_bitmap),
+        SIdx::And(a, b) | SIdx::Or(a, b) => has_bitmap_inverted(a, is_bitmap) || has_bitmap_inverted(b, is_bitmap),
+        SIdx::Query { idx, q: Query::Range(lo, hi), .. } => is_bitmap(*idx) && range_inverted(lo, hi),
+        _ => false,
+    }
+}
